@@ -102,6 +102,11 @@ func TimeStampToCdr(t *time.Time) cdrType.TimeStamp {
 
 func PlmnIdToCdr(modelsPlmnid models.PlmnId) cdrType.PLMNId {
 	var hexString string
+	var cdrPlmnId cdrType.PLMNId
+	if len(modelsPlmnid.Mcc) != 3 || (len(modelsPlmnid.Mnc) != 2 && len(modelsPlmnid.Mnc) != 3) {
+		// not a PLMN identity (3-digit MCC, 2- or 3-digit MNC): nothing to convert
+		return cdrPlmnId
+	}
 	mcc := strings.Split(modelsPlmnid.Mcc, "")
 	mnc := strings.Split(modelsPlmnid.Mnc, "")
 	if len(modelsPlmnid.Mnc) == 2 {
@@ -110,7 +115,6 @@ func PlmnIdToCdr(modelsPlmnid models.PlmnId) cdrType.PLMNId {
 		hexString = mcc[1] + mcc[0] + mnc[0] + mcc[2] + mnc[2] + mnc[1]
 	}
 
-	var cdrPlmnId cdrType.PLMNId
 	if plmnId, err := hex.DecodeString(hexString); err == nil {
 		cdrPlmnId.Value = plmnId
 	}
